@@ -98,6 +98,9 @@ struct func {
 };
 
 static const int ptrclass = 'l';
+/* function being defined, and whether a static initializer in it referred to its __func__ */
+static struct func *curfunc;
+static bool curfuncname;
 
 void
 switchcase(struct switchcases *cases, unsigned long long i, struct block *b)
@@ -549,6 +552,8 @@ mkfunc(struct decl *decl, char *name, struct type *t, struct scope *s)
 	d->value = mkglobal(d);
 	scopeputdecl(s, d);
 	f->namedecl = d;
+	curfunc = f;
+	curfuncname = false;
 
 	funclabel(f, mkblock("body"));
 
@@ -561,6 +566,8 @@ delfunc(struct func *f)
 	struct block *b;
 	struct inst **inst;
 
+	if (curfunc == f)
+		curfunc = NULL;
 	while (b = f->start) {
 		f->start = b->next;
 		arrayforeach (&b->insts, inst)
@@ -662,6 +669,15 @@ funcgoto(struct func *f, char *name)
 	return g;
 }
 
+static void
+emitfuncname(struct func *f)
+{
+	fputs("data ", stdout);
+	emitname(f->namedecl->value);
+	printf(" = { b \"%s\", b 0 }\n", f->name);
+	f->namedecl = NULL;
+}
+
 static struct lvalue
 funclval(struct func *f, struct expr *e)
 {
@@ -677,12 +693,8 @@ funclval(struct func *f, struct expr *e)
 		d = e->u.ident.decl;
 		if (d->kind != DECLOBJECT && d->kind != DECLFUNC)
 			error(&tok.loc, "identifier '%s' is not an object or function", d->name);
-		if (d == f->namedecl) {
-			fputs("data ", stdout);
-			emitname(d->value);
-			printf(" = { b \"%s\", b 0 }\n", f->name);
-			f->namedecl = NULL;
-		}
+		if (d == f->namedecl)
+			emitfuncname(f);
 		lval.addr = d->value;
 		break;
 	case EXPRSTRING:
@@ -1424,6 +1436,8 @@ dataitem(struct expr *expr, unsigned long long size)
 		decl = expr->u.ident.decl;
 		if (decl->kind == DECLOBJECT && decl->u.obj.storage != SDSTATIC)
 			error(&tok.loc, "initializer is not a constant expression");
+		if (curfunc && decl == curfunc->namedecl)
+			curfuncname = true;  /* defined after the data being emitted */
 		emitname(decl->value);
 		break;
 	case EXPRBINARY:
@@ -1553,4 +1567,9 @@ emitdata(struct decl *d, struct init *init)
 	if (offset < d->type->size)
 		printf("z %llu ", d->type->size - offset);
 	puts("}");
+	if (curfuncname) {
+		curfuncname = false;
+		if (curfunc->namedecl)
+			emitfuncname(curfunc);
+	}
 }
